@@ -17,6 +17,7 @@ def register(w):
             "getgopherpsupport", "setgopherpsupport", "getea", "geteadict", "setea", "__init__")],
         "pygopherd/gopherentry.py::getinfoentry",
         "pygopherd/handlers/base.py::BaseHandler.getselector",
+        "pygopherd/protocols/base.py::BaseGopherProtocol.log",
         "pygopherd/handlers/base.py::BaseHandler.gethandler",
         "pygopherd/handlers/base.py::BaseHandler.__init__",
         "pygopherd/handlers/base.py::VFS_Real.__init__",
@@ -43,5 +44,7 @@ def register(w):
              searchrequest="opt[str]", handler="opt[obj:BaseHandler]", selector="str", entry="obj:GopherEntry")
     w.fields("RequestHandler", client_address="tuple[str,int]", request="opaque:socket")
     w.fields("Server", server_name="str", server_port="int", config="obj:Config")
+    w.fields("WAPProtocol", accesskeyidx="int", postfieldidx="int", needsconversion="int")
+    w.fields("BaseGopherProtocol", accesskeyidx="int", postfieldidx="int")
     w.fields("WFile", written="bytes")
     w.fields("RFile", content="bytes", pos="nat")
